@@ -59,15 +59,23 @@ def analyse(ctx):
         if commits:
             info.kind = "core"
             for bb, idx, src, stmt in commits:
+                chain = ()
+                if stmt.rv.kind == "use":
+                    # the work copy was handed by value through an (inlined) helper and came back wrapped in Ok(..)
+                    from rules.typestate import object_chain
+                    ch = object_chain(an, bb, idx, stmt.rv.ops[0], lambda l: l in objs)
+                    if ch:
+                        src, chain = ch[0], tuple(ch[1:])
                 if src is not None and src in objs:
                     d = objs[src]
-                    rf = RecordFlow(ctx, f, src, False)
+                    rf = RecordFlow(ctx, f, src, False, chain=chain)
                     rf.solve(d[2].target, INITIAL_VALID)
                     # state when the object is moved out towards the commit
                     mv = None
+                    last = (chain[-1] if chain else src)
                     for b2 in sorted(rf.events):
                         for ev in rf.events[b2]:
-                            if ev["kind"] == "move" and an.cfg.reaches(b2, bb):
+                            if ev["kind"] == "move" and ev.get("root", src) == last and an.cfg.reaches(b2, bb):
                                 mv = (b2, ev["idx"])
                     if mv is None:
                         st = None
